@@ -486,7 +486,21 @@ func init() {
 		var steps []Step
 		n := t.Range(12, 40)
 		for len(steps) < n {
-			switch t.Weighted([]int{40, 22, 14, 8, 8, 8}) {
+			switch t.Weighted([]int{40, 22, 14, 8, 8, 8, 8}) {
+			case 6:
+				// the same OpenID Connect request, pushed first: nonce, response type and scope travel through the PAR session
+				ps := st("par_push", t.Intn(nc), 0, "rt", t.Pick(flows), "nonce", fmt.Sprintf("nonce-%d-abcdefghijkl", len(steps)), "scope", pickScopes(t, 85, 60))
+				if t.Chance(25) {
+					ps.P["mode"] = t.Pick([]string{"fragment", "form_post"})
+				}
+				use := Step{Op: "authz_par", C: -1, P: map[string]string{"latest": "1", "sub": t.Pick([]string{"user-A", "user-B"})}}
+				if t.Chance(20) {
+					use.P["x_nonce"] = "attacker-nonce-abcdefgh"
+				}
+				steps = append(steps, ps, use)
+				if t.Chance(60) {
+					steps = append(steps, Step{Op: "redeem", C: -1, V: "latest"})
+				}
 			case 0:
 				s := st("authz", t.Intn(nc), 0, "rt", t.Pick(flows), "nonce", fmt.Sprintf("nonce-%d-abcdefghijkl", len(steps)), "sub", t.Pick([]string{"user-A", "user-A", "user-B"}))
 				s.P["scope"] = pickScopes(t, 85, 60)
